@@ -5,7 +5,8 @@ CONSTANTS
   NIdx = 1
   MaxReqs = {0, 1, 2}
   MaxOps = 7
+  SplitNew = FALSE
   Defects = {}
 SPECIFICATION Spec
-INVARIANTS InvType InvBound InvCounts InvLiveOnOpen InvGoAwayDrains InvNoOrphan InvSlotUsable InvLimit InvAdmitOnUsable InvRefusalJustified InvRefusalNeutral InvNoDialAfterShutdown
+INVARIANTS InvType InvBound InvCounts InvLiveOnOpen InvGoAwayDrains InvNoOrphan InvSlotUsable InvLimit InvAdmitOnUsable InvRefusalJustified InvRefusalNeutral InvNoDialAfterShutdown InvNeverNegative InvSendFail InvSendOk
 CHECK_DEADLOCK FALSE
